@@ -50,7 +50,7 @@ COMPONENTS = {
     "stub": [
         "rdflib.term.uuid4 (seeded generator)", "dateutil default= clock (simulated, advanced only by clock_jump)",
         "tempfile candidate names (counter)", "fault layer over open/fdopen/os.* (C16/C17)",
-        "Sim* stream classes (C16)", "platform default text encoding (emulated at open())",
+        "Sim* stream classes (C16)", "platform default text encoding (emulated at open() and io.TextIOWrapper)", "raw-file short writes (C17, files opened with buffering=0)",
     ],
 }
 
